@@ -76,6 +76,23 @@ Definition parse_row (ud : udict) (ty : str) (n : name) (u : pyuuid) (cs : list 
   | None => Ok (ud, [node_of h n u cs])
   end.
 
+(* rows in sequence against one dictionary; the node lists are concatenated *)
+Definition seq_parse (f : udict -> item -> result err (udict * list node))
+  : udict -> list item -> result err (udict * list node) :=
+  fix go (ud0 : udict) (l : list item) {struct l} : result err (udict * list node) :=
+    match l with
+    | [] => Ok (ud0, [])
+    | x :: r =>
+      match f ud0 x with
+      | Err e => Err e
+      | Ok (ud1, ns) =>
+        match go ud1 r with
+        | Err e => Err e
+        | Ok (ud2, ns') => Ok (ud2, ns ++ ns')
+        end
+      end
+    end.
+
 (* insert_as_block: content_index_parser.get_node_group(...) runs a nested FlowParser over the
    template with RapidProContainer() — a NEW container whose dictionary nobody reads again —
    (sh_ = false), or with the container of the inserting parser (sh_ = true); the node group it
@@ -84,39 +101,14 @@ Fixpoint parse_item (ud : udict) (it : item) {struct it} : result err (udict * l
   match it with
   | IRow ty n u cs => parse_row ud ty n u cs
   | IBlock its =>
-    let go := fix go (ud0 : udict) (l : list item) {struct l} : result err (udict * list node) :=
-      match l with
-      | [] => Ok (ud0, [])
-      | x :: r =>
-        match parse_item ud0 x with
-        | Err e => Err e
-        | Ok (ud1, ns) =>
-          match go ud1 r with
-          | Err e => Err e
-          | Ok (ud2, ns') => Ok (ud2, ns ++ ns')
-          end
-        end
-      end in
-    if sh_ then go ud its
-    else match go empty_udict its with
+    if sh_ then seq_parse parse_item ud its
+    else match seq_parse parse_item empty_udict its with
          | Err e => Err e
          | Ok (_, ns) => Ok (ud, ns)
          end
   end.
 
-Fixpoint parse_items (ud : udict) (l : list item) : result err (udict * list node) :=
-  match l with
-  | [] => Ok (ud, [])
-  | x :: r =>
-    match parse_item ud x with
-    | Err e => Err e
-    | Ok (ud1, ns) =>
-      match parse_items ud1 r with
-      | Err e => Err e
-      | Ok (ud2, ns') => Ok (ud2, ns ++ ns')
-      end
-    end
-  end.
+Definition parse_items : udict -> list item -> result err (udict * list node) := seq_parse parse_item.
 
 (* one create_flow row of the content index after instantiation: flow name and rows *)
 Record fsheet := { fs_name : name; fs_items : list item }.
